@@ -1,9 +1,108 @@
-/- driver handler of the `templates` stream (line protocol, see Main.lean) -/
+/- driver handler of the `templates` stream (line protocol, see Main.lean)
+
+  templates  eval   <quirks: 0|1>  <input>  <context>  <template>  <hash table [[alg,data,hex],…]>
+  templates  parse  <JSON string: intrinsic text>       → the syntax tree as JSON
+-/
 import AslModel.Drv.Util
+import AslModel.Intrinsic
+import AslModel.Template
 namespace Asl.Drv.Templates
-open Asl
+open Asl Asl.Drv
+
+def sentinel : Char := Char.ofNat 0xE000
+
+def hashFrom (table : List Json) (alg data : Str) : Str :=
+  match table.find? (fun e => match e with
+      | .arr [.str a, .str d, .str _] => a = alg && d = data
+      | _ => false) with
+  | some (.arr [_, _, .str h]) => h
+  | _ => [sentinel]
+
+def oracles (table : List Json) : Oracles :=
+  { hash := hashFrom table, rand := fun a _ => a,
+    uuid := "00000000-0000-4000-8000-000000000000".toList }
+
+/-- paths the model's reader supports: `$`, or a reference path, possibly behind `$$` -/
+def pathSupported (p : Str) : Bool :=
+  match p with
+  | '$' :: '$' :: rest => ('$' :: rest) = ['$'] || (parseRef ('$' :: rest)).isSome
+  | '$' :: rest => rest = [] || (parseRef p).isSome
+  | _ => true
+
+mutual
+def argSupported : Arg → Bool
+  | .path p => pathSupported p
+  | .call _ args => argsSupported args
+  | _ => true
+def argsSupported : List Arg → Bool
+  | [] => true
+  | a :: as => argSupported a && argsSupported as
+end
+
+def textSupported (s : Str) : Bool :=
+  match s with
+  | '$' :: _ => pathSupported s
+  | _ => match parseIntrinsic s with
+    | some a => argSupported a
+    | none => true
+
+mutual
+def tplSupported (q : Quirks) : Json → Bool
+  | .arr xs => tplSupportedL q xs
+  | .obj kvs => tplSupportedM q kvs
+  | .str s => if q.arrayElems && endsDollar s then textSupported (stripDollar s) else true
+  | _ => true
+def tplSupportedL (q : Quirks) : List Json → Bool
+  | [] => true
+  | x :: xs => tplSupported q x && tplSupportedL q xs
+def tplSupportedM (q : Quirks) : List (Str × Json) → Bool
+  | [] => true
+  | (k, v) :: kvs =>
+    (match v with
+     | .str s => if endsDollar k then textSupported s else true
+     | .arr xs => tplSupportedL q xs
+     | .obj m => tplSupportedM q m
+     | _ => true) && tplSupportedM q kvs
+end
+
+mutual
+def argJson : Arg → Json
+  | .str s => .obj [("s".toList, .str s)]
+  | .int n => .obj [("i".toList, .num n)]
+  | .null => .obj [("k".toList, .null)]
+  | .bool b => .obj [("k".toList, .bool b)]
+  | .path p => .obj [("p".toList, .str p)]
+  | .call f args => .obj [("f".toList, .str f), ("a".toList, .arr (argsJson args))]
+def argsJson : List Arg → List Json
+  | [] => []
+  | a :: as => argJson a :: argsJson as
+end
 
 def handle : List String → String
+  | ["eval", qs, input, ctx, tpl, table] =>
+    match rd input, rd ctx, rd tpl, rd table with
+    | some i, some c, some t, some (.arr tb) =>
+      let q : Quirks := { arrayElems := qs = "1" }
+      let topOk := match t with
+        | .obj _ => true
+        | .arr _ => true
+        | .null => true
+        | .str [] => true
+        | _ => false
+      if !topOk || !tplSupported q t then "unsupported"
+      else
+        match evalTemplate (oracles tb) q i c t with
+        | .ok v =>
+          let out := js (normalise v)
+          if (out.splitOn "\\ue000").length > 1 then "unsupported" else "ok\t" ++ out
+        | .error e => "err\t" ++ e.name
+    | _, _, _, _ => "unsupported"
+  | ["parse", text] =>
+    match rd text with
+    | some (.str s) => match parseIntrinsic s with
+      | some a => "ok\t" ++ js (argJson a)
+      | none => "err\tnoparse"
+    | _ => "unsupported"
   | _ => "bad-op"
 
 end Asl.Drv.Templates
